@@ -123,8 +123,8 @@ theorem encode_constructed_tag (tag : Int) : (0xA0 + tag) = encode_constructed_e
 /-! ### base-128 numbers and OID -/
 
 theorem number_bytes : ∀ d : UInt8,
-    decide (d = 0x80) = read_number_if0 d.toNat
-    ∧ decide (d &&& 0x80 = 0) = read_number_if2 d.toNat := by
+    decide (d = 0x80) = read_number_if1 d.toNat
+    ∧ decide (d &&& 0x80 = 0) = read_number_if3 d.toNat := by
   apply forall_u8; decide +kernel
 
 theorem read_number_step (number : Nat) (d : UInt8) :
